@@ -342,6 +342,7 @@ def corr_cases(ctx):
         return None if r[1][4:] == grid_of(m[3:], w, h) else 'cells differ'
     for b in clips:
         cs.append(('c10clip ' + hx(b), 'run_clip ' + nlist(b), cmp_clip))
+    cs.append(('c10clipsweep', 'run_clip_sweep', same))
     # IcyDraw
     for _ in range(ctx.n(300, 5000)):
         p = gen_layer(rng)
@@ -452,6 +453,7 @@ def search_cases(ctx, broken):
     cap = lambda q, t: min(ctx.n(q, t), 25000)
     for _ in range(cap(400, 5000)): cs.append(('fill', 'c10fill ' + hx(gen_fill(rng).encode()), None))
     for _ in range(cap(300, 4000)): cs.append(('clipboard', 'c10clip ' + hx(gen_clip(rng)), None))
+    cs.append(('clipboard', 'c10clipsweep', 'all 2^16 clipboard character values'))
     for _ in range(cap(300, 4000)): cs.append(('icy', 'c10icy ' + hx(icy_file([('LAYER_0', gen_layer(rng))])), None))
     for _ in range(cap(100, 1500)):
         a, b = gen_two(rng)
@@ -495,6 +497,8 @@ def oracle(site, case, r):
     if kind == 'c10clip' and v[0] == 1:
         bad = [x for x in v[4:] if not is_scalar(x)]
         if v[1] != 0 or bad: return fail('invalid-char', 'layer cells hold non-scalar values %r' % bad[:4])
+    if kind == 'c10clipsweep' and (v[4] != 0 or v[0] != 63488 or v[1:4] != [2048, 0xD800, 0xDFFF]):
+        return fail('invalid-char', 'sweep of all 16-bit cell values: accepted %d, rejected %d (%#x..%#x), wrong %d' % tuple(v))
     if kind == 'c10icy' and v[0] == 0:
         if v[1] != 0: return fail('invalid-char', '%d cells hold a non-scalar value' % v[1])
         if v[2] != 0: return fail('invalid-utf8', '%d layer titles / font names are not UTF-8' % v[2])
